@@ -68,7 +68,14 @@ Clauses(S, P, hasPrev, TauSet) ==   \* S = this solve's observation, P = previou
                 got == RowV(entry.rows[1])
             IN \/ got = want /\ IsConstR(entry.rows[1], RNeg(ev[NK]))
                \/ got = VNeg(want) /\ IsConstR(entry.rows[1], ev[NK])
-      \* walk the sent list and the native list together
+      \* walk the sent list and the native list together.  An LMI of size n is encoded as one PSD matrix variable M
+      \* followed by equality rows M[a,b] - entry(a,b) = 0.  The encoding is judged by its meaning, not its row count:
+      \* every row of the block must be such a coupling, and every entry (a,b) of the declared matrix must be coupled
+      \* (one row serves (a,b) and (b,a) when the two entries are the same expression, since M is symmetric).
+      CouplesM(entry, off, n) == entry.kind = "eq" /\ Len(entry.rows) = 1 /\
+                                 \E k \in (off + 1)..(off + NPairs(n)) : RowV(entry.rows[1])[k] # Z
+      RECURSIVE BlockLen(_, _, _)
+      BlockLen(pos, off, n) == IF pos <= Len(NatL) /\ CouplesM(NatL[pos], off, n) THEN 1 + BlockLen(pos + 1, off, n) ELSE 0
       RECURSIVE Walk(_, _, _)
       Walk(k, pos, m) ==      \* k: index in sent; pos: next native position; m: number of LMIs seen so far
          IF k > Len(S.sent) THEN [ok |-> TRUE, pos |-> pos, at |-> 0]
@@ -76,11 +83,16 @@ Clauses(S, P, hasPrev, TauSet) ==   \* S = this solve's observation, P = previou
               IF IsSc(i)
               THEN IF pos <= Len(NatL) /\ ScalarIs(NatL[pos], i) THEN Walk(k + 1, pos + 1, m)
                    ELSE [ok |-> FALSE, pos |-> pos, at |-> k]
-              ELSE LET n == Items[i].n IN
-                   IF /\ pos + n * n <= Len(NatL) /\ m + 1 <= Len(msz) /\ msz[m + 1] = n
-                      /\ PsdOn(NatL[pos], MOff(m + 1), n)
-                      /\ \A a, b \in 1..n : EntryEqIs(NatL[pos + (a - 1) * n + b], MOff(m + 1), n, a, b, vecs[i][(a - 1) * n + b])
-                   THEN Walk(k + 1, pos + 1 + n * n, m + 1)
+              ELSE LET n == Items[i].n
+                       off == MOff(m + 1)
+                       len == IF pos + 1 <= Len(NatL) /\ m + 1 <= Len(msz) THEN BlockLen(pos + 1, off, n) ELSE 0
+                       rowsOf == (pos + 1)..(pos + len)
+                   IN
+                   IF /\ pos <= Len(NatL) /\ m + 1 <= Len(msz) /\ msz[m + 1] = n
+                      /\ PsdOn(NatL[pos], off, n)
+                      /\ \A r \in rowsOf : \E a, b \in 1..n : EntryEqIs(NatL[r], off, n, a, b, vecs[i][(a - 1) * n + b])
+                      /\ \A a, b \in 1..n : \E r \in rowsOf : EntryEqIs(NatL[r], off, n, a, b, vecs[i][(a - 1) * n + b])
+                   THEN Walk(k + 1, pos + 1 + len, m + 1)
                    ELSE [ok |-> FALSE, pos |-> pos, at |-> k]
       walk == Walk(1, 2, 0)
       heur == S.opts.heur # "none"
